@@ -1,4 +1,4 @@
-import FimVerif.Proofs.Lemmas.C10
+import FimVerif.Proofs.Lemmas.C10Dec
 /-!
 # C10 — slice validation accepts a topology exactly when the constraint tables allow it
 
@@ -99,26 +99,31 @@ theorem recordedSite_multisite (row : SvcRow) (s : Svc) (i j : NIface) (x y : St
 theorem siteCount_spec (xs : List String) : (dedup xs).Nodup ∧ ∀ y, y ∈ dedup xs ↔ y ∈ xs :=
   ⟨nodup_dedup xs, mem_dedup xs⟩
 
-/-- The equivalence with the full specification, under the two guards that name the known gaps:
-no node of a type hidden by `Topology.nodes`, and every node property readable from the shallow sliver. -/
+/-- The equivalence with the full specification, under the two guards that name the known gaps
+(no node of a type hidden by `Topology.nodes`, and every node property readable from the shallow sliver)
+and the two facts about services that hold for the shipped table and classes (`gen_service_properties_readable`,
+`gen_no_falsy_values`): every property a service row names is readable, and no set value can be falsy. -/
 theorem validate_iff_specFull_partial (c : Cfg) (t : Topo)
     (hvis : ∀ n ∈ t.nodes, n.ty ∉ c.nodesViewExcludes)
-    (hsee : ∀ n ∈ t.nodes, ∀ p ∈ n.props, p ∈ c.nodeGetters ∧ p ∈ c.nodeShallow) :
+    (hsee : ∀ n ∈ t.nodes, ∀ p ∈ n.props, p ∈ c.nodeGetters ∧ p ∈ c.nodeShallow)
+    (hread : ∀ kr ∈ c.svc, ∀ p ∈ kr.2.req ++ kr.2.forb, p ∈ c.svcGetters ∧ p ∈ c.svcShallow)
+    (hh : ∀ s ∈ t.svcs, ∀ q ∈ s.hollow, q ∉ c.svcFalsyCapable) :
     (validate c t).1 = .ok () ↔ SpecFull c t := by
   rw [validate_iff_spec]
+  have hsv := svcs_ok_iff_full c t hread hh
   have hs : ∀ n ∈ t.nodes, ∀ p, nodeSees c n p = true ↔ p ∈ n.props := by
     intro n hn p
     simp only [nodeSees, Bool.and_eq_true, List.contains_iff_mem]
     exact ⟨fun h => h.2.2, fun h => ⟨(hsee n hn p h).1, (hsee n hn p h).2, h⟩⟩
   constructor
   · intro h
-    refine ⟨fun n hn => ?_, h.svcs, h.instances⟩
+    refine ⟨fun n hn => ?_, hsv.mp h.svcs, h.instances⟩
     obtain ⟨row, hl, hk⟩ := h.nodes n hn (hvis n hn)
     refine ⟨row, hl, fun p hp => (hs n hn p).mp (hk.required p hp), fun p hp hin => ?_⟩
     have := hk.forbidden p hp
     rw [(hs n hn p).mpr hin] at this; cases this
   · intro h
-    refine ⟨fun n hn _ => ?_, h.svcs, h.instances⟩
+    refine ⟨fun n hn _ => ?_, hsv.mpr h.svcs, h.instances⟩
     obtain ⟨row, hl, hk⟩ := h.nodes n hn
     refine ⟨row, hl, fun p hp => (hs n hn p).mpr (hk.required p hp), fun p hp => ?_⟩
     cases hv : nodeSees c n p with
@@ -129,9 +134,11 @@ theorem validate_iff_specFull_partial (c : Cfg) (t : Topo)
 a slice that satisfies the full specification validates. -/
 theorem valid_accepted_of (c : Cfg) (t : Topo)
     (hreq : ∀ kr ∈ c.node, ∀ p ∈ kr.2.req, p ∈ c.nodeGetters ∧ p ∈ c.nodeShallow)
+    (hread : ∀ kr ∈ c.svc, ∀ p ∈ kr.2.req ++ kr.2.forb, p ∈ c.svcGetters ∧ p ∈ c.svcShallow)
+    (hh : ∀ s ∈ t.svcs, ∀ q ∈ s.hollow, q ∉ c.svcFalsyCapable)
     (h : SpecFull c t) : (validate c t).1 = .ok () := by
   rw [validate_iff_spec]
-  refine ⟨fun n hn _ => ?_, h.svcs, h.instances⟩
+  refine ⟨fun n hn _ => ?_, (svcs_ok_iff_full c t hread hh).mpr h.svcs, h.instances⟩
   obtain ⟨row, hl, hk⟩ := h.nodes n hn
   obtain ⟨kr, hkr, rfl⟩ := lookup_mem c.node n.ty row hl
   refine ⟨kr.2, hl, fun p hp => ?_, fun p hp => ?_⟩
@@ -226,6 +233,14 @@ theorem tables_complete :
 theorem gen_service_properties_readable :
     ∀ kr ∈ genCfg.svc, ∀ p ∈ kr.2.req ++ kr.2.forb, p ∈ genCfg.svcGetters ∧ p ∈ genCfg.svcShallow := by decide
 
+/-- no constrained service property has a value class that can be falsy while set (no `__len__`/`__bool__` on ERO,
+PathInfo, Gateway, ... - regenerated from the live classes): the validator's truthiness tests therefore see exactly
+whether a property is set.  A class gaining `__len__` turns this theorem false and the check searches hollow values. -/
+theorem gen_no_falsy_values : genCfg.svcFalsyCapable = [] := by decide
+
+theorem gen_hollow_harmless (t : Topo) : ∀ s ∈ t.svcs, ∀ q ∈ s.hollow, q ∉ genCfg.svcFalsyCapable := by
+  intro s _ q _; rw [gen_no_falsy_values]; exact List.not_mem_nil
+
 /-- every *required* node property is readable -/
 theorem gen_node_required_readable :
     ∀ kr ∈ genCfg.node, ∀ p ∈ kr.2.req, p ∈ genCfg.nodeGetters ∧ p ∈ genCfg.nodeShallow := by decide
@@ -270,7 +285,14 @@ theorem validate_rejects_with_topology (t : Topo) (e : Err)
 
 /-- No valid slice is rejected (shipped table). -/
 theorem valid_accepted (t : Topo) (h : SpecFull genCfg t) : (validate genCfg t).1 = .ok () :=
-  valid_accepted_of genCfg t gen_node_required_readable h
+  valid_accepted_of genCfg t gen_node_required_readable gen_service_properties_readable (gen_hollow_harmless t) h
+
+/-- **Services, shipped table and classes: nothing invalid is accepted.**  Whatever the nodes are, a slice that validates
+has every service meeting its row in the property's own terms (`SvcFull`: required properties set, forbidden properties
+not set - whatever the Python truthiness of the stored object). -/
+theorem services_full_of_valid (t : Topo) (h : (validate genCfg t).1 = .ok ()) :
+    ∀ s ∈ t.svcs, ∃ row, genCfg.svc.lookup s.ty = some row ∧ SvcFull t.exp row s :=
+  (svcs_ok_iff_full genCfg t gen_service_properties_readable (gen_hollow_harmless t)).mp ((validate_iff_spec genCfg t).mp h).svcs
 
 /-- Counterexample to the full statement (known finding): a Facility node with an image validates. -/
 theorem validate_iff_specFull_counterexample_facility :
@@ -296,6 +318,20 @@ theorem validate_iff_specFull_counterexample_components :
   cases hl
   exact hk.forbidden "attached_components_info" (by decide) (by decide)
 
+/-- Why `gen_no_falsy_values` is an obligation and not a remark: were the class of `ero` values to define `__len__`
+(a graph-reference ERO then being falsy), an L2STS carrying such an ERO would validate although `ero` is forbidden. -/
+theorem falsy_value_counterexample :
+    ∃ t, (validate { genCfg with svcFalsyCapable := ["ero"] } t).1 = .ok () ∧
+      ¬ SpecFull { genCfg with svcFalsyCapable := ["ero"] } t :=
+  ⟨{ exp := true, nodes := [], svcs := [⟨"L2STS", none, ["ero"], none,
+      [.port "n0-p0" (some [⟨"DedicatedPort", some "RENC"⟩]), .port "n1-p0" (some [⟨"SharedPort", some "UKY"⟩])], ["ero"]⟩] },
+    by decide, by decide⟩
+
+/-- ... and with the classes as they are the same slice is refused -/
+example : (validate genCfg { exp := true, nodes := [], svcs := [⟨"L2STS", none, ["ero"], none,
+      [.port "n0-p0" (some [⟨"DedicatedPort", some "RENC"⟩]), .port "n1-p0" (some [⟨"SharedPort", some "UKY"⟩])], ["ero"]⟩] }).1
+    = .error .topology := by decide
+
 /-- The guardrails run on both ways of attaching an interface (constructor list, `connect_interface`). -/
 theorem gen_guardrails_everywhere (viaCtor : Bool) :
     ((viaCtor && genCfg.ctorRunsGuardrails) || genCfg.connectRunsGuardrails) = true := by
@@ -317,9 +353,9 @@ theorem guardrail_sound :
 
 /-! ### non-vacuity -/
 
-def exSts : Topo := { exp := true, nodes := [⟨"VM", ["site"]⟩, ⟨"VM", ["site"]⟩], svcs := [⟨"L2STS", none, [], none, [.port "n0-p0" (some [⟨"DedicatedPort", some "RENC"⟩]), .port "n1-p0" (some [⟨"SharedPort", some "UKY"⟩])]⟩] }
-def exBridge (site : Option String) : Topo := { exp := true, nodes := [], svcs := [⟨"L2Bridge", site, [], none, [.port "n0-p0" (some [⟨"SharedPort", some "RENC"⟩])]⟩] }
-def exThree : Topo := { exp := true, nodes := [], svcs := [⟨"L2STS", none, [], none, [.port "n1-x-p0" (some [⟨"SharedPort", some "A"⟩]), .port "n1-x-p0" (some [⟨"SharedPort", some "B"⟩]), .port "n1-x-p0" (some [⟨"SharedPort", some "C"⟩])]⟩] }
+def exSts : Topo := { exp := true, nodes := [⟨"VM", ["site"]⟩, ⟨"VM", ["site"]⟩], svcs := [⟨"L2STS", none, [], none, [.port "n0-p0" (some [⟨"DedicatedPort", some "RENC"⟩]), .port "n1-p0" (some [⟨"SharedPort", some "UKY"⟩])], []⟩] }
+def exBridge (site : Option String) : Topo := { exp := true, nodes := [], svcs := [⟨"L2Bridge", site, [], none, [.port "n0-p0" (some [⟨"SharedPort", some "RENC"⟩])], []⟩] }
+def exThree : Topo := { exp := true, nodes := [], svcs := [⟨"L2STS", none, [], none, [.port "n1-x-p0" (some [⟨"SharedPort", some "A"⟩]), .port "n1-x-p0" (some [⟨"SharedPort", some "B"⟩]), .port "n1-x-p0" (some [⟨"SharedPort", some "C"⟩])], []⟩] }
 /-- a two-site L2STS between two NIC ports validates … -/
 example : (validate genCfg exSts).1 = .ok () := by decide
 /-- … an L2Bridge gets its site recorded … -/
@@ -329,8 +365,8 @@ example : (validate genCfg (exBridge (some "UKY"))).1 = .error .topology := by d
 example : (validate genCfg exThree).1 = .error .topology := by decide
 /-- three interfaces, two of them with the same name (`n1` + `nic-aa-p1`, `n1-nic` + `aa-p1`): the name-keyed view has two
 entries, but an L2PTP with them is over its limit of 2 and a two-interface L2STS with like-named ports is valid -/
-def exPtpNames : Topo := { exp := true, nodes := [], svcs := [⟨"L2PTP", none, [], none, [.port "n1-nic-aa-p1" (some [⟨"DedicatedPort", some "RENC"⟩]), .port "n1-nic-aa-p1" (some [⟨"DedicatedPort", some "UKY"⟩]), .port "n3-nic1-p1" (some [⟨"DedicatedPort", some "UKY"⟩])]⟩] }
-def exStsNames : Topo := { exp := true, nodes := [], svcs := [⟨"L2STS", none, [], none, [.port "n1-nic-aa-p1" (some [⟨"DedicatedPort", some "RENC"⟩]), .port "n1-nic-aa-p1" (some [⟨"DedicatedPort", some "UKY"⟩])]⟩] }
+def exPtpNames : Topo := { exp := true, nodes := [], svcs := [⟨"L2PTP", none, [], none, [.port "n1-nic-aa-p1" (some [⟨"DedicatedPort", some "RENC"⟩]), .port "n1-nic-aa-p1" (some [⟨"DedicatedPort", some "UKY"⟩]), .port "n3-nic1-p1" (some [⟨"DedicatedPort", some "UKY"⟩])], []⟩] }
+def exStsNames : Topo := { exp := true, nodes := [], svcs := [⟨"L2STS", none, [], none, [.port "n1-nic-aa-p1" (some [⟨"DedicatedPort", some "RENC"⟩]), .port "n1-nic-aa-p1" (some [⟨"DedicatedPort", some "UKY"⟩])], []⟩] }
 example : (exPtpNames.svcs.map (·.interfaceNames.length)) = [2] := by decide
 example : (validate genCfg exPtpNames).1 = .error .topology := by decide
 example : (validate genCfg exStsNames).1 = .ok () := by decide
